@@ -5,11 +5,11 @@ Open Scope Q_scope.
 
 (* the label-based conversion reproduces the series impedance of the line *)
 Lemma label_conversion_preserves tab sn idx l m :
-  by_label tab idx = Some l -> line_to_imp_label tab sn idx = Ok m ->
+  by_label tab idx = Some l -> line_to_imp tab sn idx = Ok m ->
   ~ vn l == 0 -> ~ sn == 0 -> ~ par l == 0 ->
   z_imp_r m (vn l) == z_line_r l /\ z_imp_x m (vn l) == z_line_x l.
 Proof.
-  intros Hl. unfold line_to_imp_label. rewrite Hl. intros E. inversion E; subst m; clear E.
+  intros Hl. unfold line_to_imp. rewrite Hl. intros E. inversion E; subst m; clear E.
   intros Hv Hs Hp. unfold z_imp_r, z_imp_x, z_line_r, z_line_x. simpl. qnorm. split; field; repeat split; assumption.
 Qed.
 
@@ -31,13 +31,13 @@ Proof.
   assert (H2 : (i <? Z.of_nat (List.length tab))%Z = true) by (apply Z.ltb_lt; lia).
   rewrite H1, H2. simpl. replace (i - 0)%Z with i in N by lia. exact N.
 Qed.
-Lemma G23a_impl_is_label tab sn i : G23a tab = true -> line_to_imp tab sn i = line_to_imp_label tab sn i.
+Lemma G23a_impl_is_label tab sn i : G23a tab = true -> line_to_imp_old tab sn i = line_to_imp tab sn i.
 Proof.
-  intros G. unfold line_to_imp, line_to_imp_label. destruct (by_label tab i) as [l|] eqn:Hl; [|reflexivity].
+  intros G. unfold line_to_imp_old, line_to_imp. destruct (by_label tab i) as [l|] eqn:Hl; [|reflexivity].
   rewrite (G23a_pos_eq_label tab i l G Hl). reflexivity.
 Qed.
 Lemma line_to_imp_partial tab sn idx l m :
-  G23a tab = true -> by_label tab idx = Some l -> line_to_imp tab sn idx = Ok m ->
+  G23a tab = true -> by_label tab idx = Some l -> line_to_imp_old tab sn idx = Ok m ->
   ~ vn l == 0 -> ~ sn == 0 -> ~ par l == 0 ->
   z_imp_r m (vn l) == z_line_r l /\ z_imp_x m (vn l) == z_line_x l.
 Proof. intros G Hl E. rewrite (G23a_impl_is_label tab sn idx G) in E. eapply label_conversion_preserves; eauto. Qed.
@@ -47,11 +47,11 @@ Definition w_tab : list line :=
   [{| lid := 1; r_km := 1 # 4; x_km := 1 # 8; c_km := 0; g_km := 0; len := 2; par := 1; vn := 20 |};
    {| lid := 0; r_km := 1 # 4; x_km := 1 # 8; c_km := 0; g_km := 0; len := 1 # 2; par := 1; vn := 20 |}].
 Lemma line_to_imp_refuted :
-  exists tab sn idx l m, by_label tab idx = Some l /\ line_to_imp tab sn idx = Ok m /\ ~ z_imp_r m (vn l) == z_line_r l.
+  exists tab sn idx l m, by_label tab idx = Some l /\ line_to_imp_old tab sn idx = Ok m /\ ~ z_imp_r m (vn l) == z_line_r l.
 Proof.
   exists w_tab, 1, 1%Z. eexists. eexists. split; [reflexivity|]. split; [reflexivity|]. vm_compute. discriminate.
 Qed.
-Lemma line_to_imp_index_error : exists tab sn idx, by_label tab idx <> None /\ line_to_imp tab sn idx = Err "IndexError".
+Lemma line_to_imp_index_error : exists tab sn idx, by_label tab idx <> None /\ line_to_imp_old tab sn idx = Err "IndexError".
 Proof.
   exists [{| lid := 5; r_km := 1 # 4; x_km := 1 # 8; c_km := 0; g_km := 0; len := 2; par := 1; vn := 20 |}], 1, 5%Z.
   split; [discriminate | reflexivity].
